@@ -16,15 +16,24 @@ import (
 )
 
 // classes of cases; case idx runs class c16Classes[idx % len].
-var c16Classes = []string{"message/equals", "message/copy", "cqrs/json", "cqrs/proto", "cqrs/gogo", "forwarder", "reply"}
+var c16Classes = []string{"message/equals", "message/copy", "cqrs/json", "cqrs/proto", "cqrs/gogo", "forwarder", "reply", "forwarder/pubsub"}
 
 func init() {
 	vlib.Register(&vlib.Prop{
 		ID:    "C16",
 		Level: "exploration",
-		Cases: func(tier string) int { return vlib.TierN(tier, 448, 168000) },
-		Rule: "case idx runs class idx%7 of {message/equals, message/copy, cqrs/json, cqrs/proto, cqrs/gogo, forwarder, reply} on a batch of generated inputs " +
-			"(counter `inputs`; 7 hand-written small pairs + 48 messages x 14 pair mutations for equals, 64 messages for copy, 64 values + a fixed 16-step size ladder (encodings of 0..9000 bytes growing and shrinking through 4 KiB, marshaled back to back, all messages held) per marshaler case, 24 messages through one real Forwarder, 64 replies). " +
+		Cases: func(tier string) int { return vlib.TierN(tier, 512, 192000) },
+		Rule: "case idx runs class idx%8 of {message/equals, message/copy, cqrs/json, cqrs/proto, cqrs/gogo, forwarder, reply, forwarder/pubsub} on a batch of generated inputs " +
+			"(counter `inputs`; 7 hand-written small pairs + 48 messages x 14 pair mutations for equals, 64 messages for copy, 64 values + a fixed 16-step size ladder (encodings of 0..9000 bytes growing and shrinking through 4 KiB, marshaled back to back, all messages held) per marshaler case, " +
+			"24 random + 8 edge-grid messages through forwarder.Publisher -> captured envelope -> one real Forwarder (scripted ends), 12 random + 8 edge-grid messages through forwarder.Publisher -> GoChannel -> Forwarder -> GoChannel -> plain subscriber (forwarder/pubsub, batches judged as multisets), 64 replies). " +
+			"NON-FRESH UNMARSHAL TARGETS (all three cqrs marshalers): after the round trip into a fresh zero value every message is also decoded into (a) the one target that is kept per Go type for the whole batch and still holds the previous value of that type " +
+			"(counters `unmarshal_into_reused_target`, `..._holding_different_value`, `unmarshal_zero_value_into_reused_nonzero_target`), in 1 of 4 a second time into the target that now holds the equal value (`unmarshal_same_message_twice_into_target`), " +
+			"and in 1 of 2 (b) a pre-populated target: another generated value of the same type that the marshaler never touched (`unmarshal_into_prepopulated_target`). For the Protobuf marshalers the target must equal the marshaled value (proto.Equal / gogo Equal); " +
+			"for the JSON marshaler the target must COVER it (see Assumptions). The reply marshaler has no caller-supplied target: there half of the reply messages are decoded twice (`replies_decoded_twice`) and every Reply handed out is compared again with its source after all other replies of the batch were decoded (`replies_rechecked_after_all_unmarshals`). " +
+			"FORWARDER EDGE GRID: UUID {empty, non-empty} x payload {nil, empty non-nil, bytes incl. texts a JSON codec could take for a value (null, \"\", {}, [], base64, a whole envelope document)} x metadata {nil map, empty map, ordinary, keys/values spelled like the envelope's own fields " +
+			"(uuid, payload, metadata, destination_topic and their Go/camel/upper-case spellings)} = 24 cells, 8 consecutive cells per case, so 3 cases of a class walk the grid (counters `forwarder_msgs_*`); destination topics of grid batches are in 1 of 2 spelled like envelope fields; " +
+			"random forwarder messages keep whatever UUID was drawn, incl. the empty one (judgement is positional resp. by multiset, unique UUIDs are not needed). In the scripted class half of the envelopes reach the Forwarder on a carrier message as a broker would hand it over: " +
+			"own (or empty) UUID, broker-side metadata incl. keys spelled like envelope fields and the forwarded message's own keys with other values (`forwarder_carrier_with_broker_uuid_and_metadata`) - the forwarded message is defined by the envelope alone. " +
 			"Strings (UUID, metadata keys/values, topics, struct and protobuf string fields, map keys, custom names, error texts) come from a valid-UTF-8 generator: 7 of 10 uniform over a rune pool " +
 			"(empty, control, quotes, multi-byte, astral, up to 600 runes), 3 of 10 'hostile' texts built from a corpus of ~300 fragments in 8 kinds that any re-interpretation of the text on the way would alter " +
 			"(printf verbs/flags/%%/trailing %/URL-escapes; backslash sequences as text and quotes; HTML/XML/JSON specials <>& entities U+2028/9 and texts that are JSON documents; NUL, control, line breaks, ANSI; " +
@@ -51,6 +60,12 @@ func init() {
 			"the family of JSON-serialisable types is the set of values that encoding/json (the codec both JSON marshalers are documented to use) maps to themselves: in interface{} slots only nil, bool, float64, string, " +
 				"non-nil []interface{} and map[string]interface{} (what json.Unmarshal stores in an interface value per its godoc) - no ints, no NaN/Inf, no nil maps/slices, no structs in untyped slots",
 			"the text of a reply error is err.Error() of the handler error; its Go type is not expected to survive",
+			"Unmarshal targets that already carry data (reused between calls, pre-populated) are in scope: cqrs hands Unmarshal whatever NewCommand/NewEvent or a custom handler returns, and the statement is about the value the caller holds after Unmarshal. " +
+				"Protobuf marshalers: exact identity is demanded, because proto.Unmarshal (google.golang.org/protobuf: only UnmarshalOptions.Merge keeps old content; gogo: 'Unmarshal resets pb before starting to unmarshal') clears the target. " +
+				"JSON marshaler: encoding/json, the codec the marshaler is documented to use, does not clear its target (godoc: unmarshaling an object into a map 'reuses the existing map, keeping existing entries'; struct fields absent from the document - here only omitempty fields whose value is empty - are left alone; " +
+				"slice elements and pointees are decoded in place), so for a non-fresh target the identity cannot hold for stale map keys and omitted fields on the unchanged tree. Demanded is the part of the identity every such decoder guarantees ('covers'): every scalar, string, []byte, time, slice length and nil-ness, " +
+				"nil pointer/map/interface, every marshaled map key with its value, and the complete content of untyped (interface{}) slots come back exactly; additional map keys and fields the document omits may keep what the target held",
+			"forwarder: a carrier message's own UUID and metadata are not part of the envelope (wrap puts destination topic, UUID, payload, metadata into the carrier's payload), so they must not influence the forwarded message; messages of one Publish call through GoChannel are compared as a multiset because GoChannel does not order them",
 		},
 		Run: run,
 	})
@@ -81,6 +96,8 @@ func run(e *vlib.Env) (res vlib.Result) {
 		runForwarder(e, &res)
 	case "reply":
 		runReply(e, &res)
+	case "forwarder/pubsub":
+		runForwarderPubSub(e, &res)
 	}
 	return res
 }
